@@ -50,6 +50,7 @@ type Engine struct {
 	noFacts    bool
 	debugPicks bool
 	sleepSets  bool
+	keepAllObs bool
 }
 
 func (e *Engine) fnStat(fn *ssa.Function) *fnStat {
@@ -300,7 +301,7 @@ func (e *Engine) explore(harness string, cfg ExploreCfg) *Summary {
 				if res.Obligations > 0 {
 					sum.PathsWithObl++
 				}
-				if len(sum.Observations) < 50 || e.debugPicks {
+				if len(sum.Observations) < 50 || e.debugPicks || e.keepAllObs {
 					sum.Observations = append(sum.Observations, res.Observations...)
 				}
 				if cfg.MaxPaths > 0 && sum.Paths >= cfg.MaxPaths && (len(stack) > 0 || active > 0) {
